@@ -66,7 +66,11 @@ PROPS = {
         theorems=["C06_ascending_once", "C06_exactly_the_intersection", "C06_membership_per_member_kind",
                   "C06_join_visits_intersection", "C06_early_stop_is_a_prefix", "C06_optional_reported_correctly",
                   "C06_lending_same_indices", "C06_lending_lookup_by_entity", "C06_lending_lookup_by_index",
-                  "C06_any_storage_kind_joins_like_the_map", "C06_same_join_under_both_allocators"],
+                  "C06_any_storage_kind_joins_like_the_map", "C06_same_join_under_both_allocators",
+                  "C06_join_refines_the_join_on_maps", "C06_direct_lookup_is_the_cell", "C06_items_equal_direct_lookups",
+                  "C06_mutation_lands_on_the_visited_entities_only", "C06_other_storages_untouched",
+                  "C06_cells_after_a_join", "C06_drain_removes_the_visited_only", "C06_joins_are_never_stuck",
+                  "C06_joins_add_no_member"],
         required="spec",
         nontrivial="history contains a join of at least two members that yields at least one item, over indices "
                    "on both sides of a layer boundary (64 / 4096) or with a negated / optional member",
@@ -74,14 +78,18 @@ PROPS = {
     "C07": dict(
         domain="world", module="Props.C07",
         theorems=["C07_parallel_is_sequential", "C07_pool_size_irrelevant", "C07_each_index_exactly_once",
-                  "C07_any_storage_kind"],
+                  "C07_any_storage_kind", "C07_any_split_same_final_storages", "C07_any_split_same_indices",
+                  "C07_any_split_same_items", "C07_visits_of_distinct_indices_do_not_interfere",
+                  "C07_join_refines_the_join_on_maps"],
         required="spec",
         nontrivial="history contains a parallel join on a pool of at least two threads that yields at least two items",
     ),
     "C13": dict(
         domain="world", module="Props.C13",
         theorems=["C13_visits_the_storages_members", "C13_item_reads_its_own_index", "C13_direct_read_is_the_same",
-                  "C13_other_entity_lookup", "C13_membership_unchanged", "C13_any_storage_kind"],
+                  "C13_other_entity_lookup", "C13_membership_unchanged", "C13_any_storage_kind",
+                  "C13_writes_only_the_chosen_items", "C13_read_only_views_change_nothing",
+                  "C13_join_refines_the_join_on_maps"],
         required="spec",
         nontrivial="history contains a join over a restricted storage with at least one item and one other-entity lookup",
     ),
